@@ -8,15 +8,14 @@ import (
 )
 
 func main() {
-	data := gen.Dataset("D3")
+	data := gen.Dataset("D1")
 	st, _ := core.BuildStore(data)
-	for k := 0; k < 12; k++ {
-		t := int64(10000 + 30000*k)
-		for _, q := range []string{`(bottomk(2, a)) >= on (l) (sum by (l) (a))`, `bottomk(2, a)`, `sum by (l) (a)`} {
-			cs := &core.Case{Q: q, Data: data, W: core.Instant(t), O: core.Opts{Optimizers: "none"}}
+	for _, q := range []string{`stdvar_over_time(a[1m])`, `topk(1, stdvar_over_time(a[1m]))`} {
+		cs := &core.Case{Q: q, Data: data, W: core.Range(10000, 30000, 4), O: core.Opts{Optimizers: "none"}}
+		for i := 0; i < 3; i++ {
 			o := core.RunEngine(cs, st)
-			r := core.RunRef(cs, st)
-			fmt.Printf("t=%d %-45s engine=%s\n%57s ref=%s\n", t, q, o.Res, "", r)
+			fmt.Println(q, o.Res)
 		}
+		fmt.Println("ref", core.RunRef(cs, st))
 	}
 }
